@@ -73,7 +73,8 @@ func funcIsNonnull(js JSWriter, args []ast.Node) {
 }
 
 func funcLength(js JSWriter, args []ast.Node) {
-	js.Write(args[0], ".length")
+	// (parenthesized: "5.length" is not JavaScript)
+	js.Write("(", args[0], ").length")
 }
 
 func funcRound(js JSWriter, args []ast.Node) {
@@ -110,7 +111,7 @@ func funcRandomInt(js JSWriter, args []ast.Node) {
 }
 
 func funcStrContains(js JSWriter, args []ast.Node) {
-	js.Write(args[0], ".indexOf(", args[1], ") != -1")
+	js.Write("(", args[0], ").indexOf(", args[1], ") != -1")
 }
 
 // funcRange writes range() used as a value (a {for} loop over range() does
